@@ -180,3 +180,25 @@ fn c17b_options_estimator_covers_tables() {
     kani::cover!(lc + lp == 12, "largest literal coder");
     kani::cover!(lc + lp <= 4, "LZMA2-compatible options");
 }
+
+// C03-C / C01-E: LZMA2 chunk limits: the encoder closes a chunk when its running sizes exceed the two limits; one more
+// symbol (at most MATCH_LEN_MAX bytes of input, at most 26+4 bytes of range coder output incl. the 5-byte flush margin)
+// may still be added, and the result must fit the chunk header fields (21 and 16 bits).
+//@ {"name":"c03c_lzma2_chunk_limits","props":["C03","C01","C16"],"obligation":"C03-C","timeout":600,"functions":["enc::encoder::LZMA2_UNCOMPRESSED_LIMIT","enc::encoder::LZMA2_COMPRESSED_LIMIT","enc::encoder::LZMAEncoder::encode_for_lzma2 (loop condition)","enc::range_enc::RangeEncoder::get_pending_size"],"bounds":"running uncompressed size any value <= limit, last symbol length 1..=273; pending compressed size any value <= limit, last symbol adds at most 26 bytes","assumes":["one LZMA symbol codes at most MATCH_LEN_MAX = 273 input bytes and emits at most 26 bytes (the margin the original constant documents)"]}
+#[kani::proof]
+fn c03c_lzma2_chunk_limits() {
+    let us: u32 = kani::any();
+    let len: u32 = kani::any();
+    kani::assume(us <= LZMA2_UNCOMPRESSED_LIMIT && len >= 1 && len <= MATCH_LEN_MAX as u32);
+    let total = us + len;
+    assert!(total <= (1 << 21), "C03-C: an LZMA2 chunk can exceed 2 MiB of uncompressed data");
+    // header encoding used by write_lzma: 5 bits in the control byte + 16 bits
+    assert!(((total - 1) >> 16) <= 0x1F, "C03-C: uncompressed size does not fit the chunk header");
+    let cs: u32 = kani::any();
+    let add: u32 = kani::any();
+    kani::assume(cs <= LZMA2_COMPRESSED_LIMIT && add <= 26);
+    assert!(cs + add <= (1 << 16), "C03-C: an LZMA2 chunk can exceed 64 KiB of compressed data");
+    assert!(cs + add - 1 <= 0xFFFF || cs + add == 0);
+    kani::cover!(total == (1 << 21), "chunk of exactly 2 MiB");
+    kani::cover!(cs + add == (1 << 16), "chunk of exactly 64 KiB");
+}
